@@ -52,8 +52,22 @@ Fixpoint evs_eqb (a b : list ev) : bool :=
 (* ESkip is a ghost event of the model (a cached verdict was used); the implementation cannot show it *)
 Definition visible (e : ev) : bool := match e with ESkip _ _ _ => false | _ => true end.
 
+(* what can be seen of a run through the REAL subroute module from outside it: fallbacks and drops of
+   nested route lists are internal to the module (its own logger, its own next) *)
+Definition visible_outside (e : ev) : bool :=
+  match e with
+  | ESkip _ _ _ => false
+  | EFallback (S _) _ => false
+  | EDrop (S _) _ => false
+  | _ => true
+  end.
+Definition is_herr (e : ev) : bool := match e with EHErr _ _ => true | _ => false end.
+
 Inductive c02case :=
-| RC (rs : list route) (script : list arrival) (obs : list ev) (closed : Z) (panicked : bool).
+| RC (rs : list route) (script : list arrival) (obs : list ev) (closed : Z) (panicked : bool)
+(* one connection through a provisioned route list containing real subroute handlers (any connection
+   of a sequence: the model is the same for the first and for every later one) *)
+| RS (rs : list route) (script : list arrival) (obs : list ev) (returned_error : bool).
 
 (* fuel: passes are bounded by buffer growth; the engine's scripts need far less *)
 Definition corr_fuel : nat := 64.
@@ -69,4 +83,9 @@ Definition check (c : c02case) : bool :=
          | Exhausted _ => false
          | _ => negb panicked
          end
+  | RS rs script obs reterr =>
+      let r := s_serve corr_fuel rs [] script in
+      evs_eqb (filter visible_outside (evs (res_st r))) obs
+      && Bool.eqb (existsb is_herr (evs (res_st r))) reterr
+      && match r with Crash _ | Exhausted _ => false | _ => true end
   end.
